@@ -107,6 +107,10 @@ def pattern_application_sites(ctx: Ctx) -> list[tuple[str, Any, ast.Attribute, s
             if isinstance(n, ast.For) and isinstance(n.target, ast.Name) and isinstance(n.iter, ast.Attribute) and \
                     n.iter.attr in PATTERN_SOURCES:
                 pat_names.add(n.target.id)
+            if isinstance(n, (ast.GeneratorExp, ast.ListComp, ast.SetComp)):
+                for g in n.generators:
+                    if isinstance(g.target, ast.Name) and isinstance(g.iter, ast.Attribute) and g.iter.attr in PATTERN_SOURCES:
+                        pat_names.add(g.target.id)
         for n in walk_no_nested(fi.node):
             if isinstance(n, ast.Attribute) and n.attr in APPLY and isinstance(n.value, ast.Name) and \
                     n.value.id in pat_names:
@@ -119,7 +123,9 @@ def rule_fullmatch_sites(ctx: Ctx, rule: str) -> None:
                    'on a loop variable over include/exclude/npatterns or on a Pattern-typed parameter) is `.fullmatch`')
     repo = ctx.repo
     sites = pattern_application_sites(ctx)
-    ctx.floor(rule, 'pattern application sites', len(sites), 5)
+    ctx.floor(rule, 'pattern application sites', len(sites), 4)
+    from . import matchrules
+    matchrules.rule_application_mode(ctx, rule, which={'fullmatch'})
     for mod, fi, n, base in sites:
         ctx.ob(rule, f'{mod}:{fi.qualname}/{base}.{n.attr}' if n.attr != 'fullmatch' else
                f'{mod}:{fi.qualname}/{base}.fullmatch@{_ordinal(sites, mod, fi, n)}',
